@@ -18,7 +18,7 @@ import (
 // ---------------------------------------------------------------------------
 // Goldilocks / Ed448 points (RFC 8032 §5.2.3), 57 bytes
 
-var goldKinds = []string{"valid", "bitflip", "bitflip", "y>=p", "y>=p", "spare-bits", "spare-bits", "x-zero-sign", "low-order", "ref-point", "random", "random"}
+var goldKinds = []string{"valid", "bitflip", "bitflip", "y>=p", "y>=p", "spare-bits", "spare-bits", "x-zero-sign", "low-order", "ref-point", "structured-valid", "structured-valid", "random", "random"}
 
 func genGold(t *rapid.T, kind string) (b []byte, valid bool, orig *goldilocks.Point) {
 	lib := func() ([]byte, *goldilocks.Point) {
@@ -90,6 +90,27 @@ func genGold(t *rapid.T, kind string) (b []byte, valid bool, orig *goldilocks.Po
 			b[56] |= 0x80
 		}
 		return b, false, nil
+	case "structured-valid":
+		// curve points with structure, built by the reference: structured y (0, ±1, small, 2^k, near p) with
+		// either sign bit, or structured x lifted through the curve equation (either root y)
+		for i := 0; ; i++ {
+			if rapid.Bool().Draw(t, fmt.Sprintf("fromx%d", i)) {
+				if P, ok := decode.Ed448LiftX(drawStructured(t, p, fmt.Sprintf("x%d", i))); ok {
+					if rapid.Bool().Draw(t, "negy") {
+						P.Y = new(big.Int).Mod(new(big.Int).Neg(P.Y), p)
+					}
+					return decode.Ed448Encode(P), false, nil
+				}
+				continue
+			}
+			e := vlib.LE(drawStructured(t, p, fmt.Sprintf("y%d", i)), 57)
+			if rapid.Bool().Draw(t, fmt.Sprintf("sign%d", i)) {
+				e[56] |= 0x80
+			}
+			if decode.Ed448Decode(e).OK || i > 100 {
+				return e, false, nil
+			}
+		}
 	case "ref-point":
 		// an arbitrary curve point (any order) produced by the reference: drawn y until x exists
 		for i := 0; ; i++ {
@@ -130,6 +151,9 @@ func checkGoldFromBytes(t vlib.TB, b []byte, kind string, valid bool, orig *gold
 	sample(sub, kind, accepted, b, "ref="+ref.Stage)
 	if valid && !accepted {
 		vlib.Report(t, "C09/completeness/goldilocks.FromBytes/rejects-library-encoding", fmt.Sprintf("input=%x err=%v", b, err))
+		return
+	}
+	if mustAccept(t, "goldilocks.FromBytes", sub, kind, ref.OK, accepted, b, ref.Stage) {
 		return
 	}
 	if !accepted {
@@ -184,6 +208,9 @@ func checkGoldUnmarshal(t vlib.TB, b []byte, kind string, valid bool, orig *gold
 		vlib.Report(t, "C09/completeness/goldilocks.Point.UnmarshalBinary/rejects-library-encoding", fmt.Sprintf("input=%x err=%v", b, err))
 		return
 	}
+	if mustAccept(t, "goldilocks.Point.UnmarshalBinary", sub, kind, ref.OK, accepted, b, ref.Stage) {
+		return
+	}
 	if !accepted {
 		return
 	}
@@ -224,12 +251,17 @@ func TestC09Goldilocks(t *testing.T) {
 // ---------------------------------------------------------------------------
 // FourQ points, 32 bytes
 
-var fourqKinds = []string{"valid", "bitflip", "bitflip", "coord=p", "coord=p", "bit127", "x-zero-sign", "special-x", "special-x", "ref-point", "small-order", "random", "random"}
+var fourqKinds = []string{"valid", "bitflip", "bitflip", "coord=p", "coord=p", "bit127", "x-zero-sign", "special-x", "special-x", "structured-valid", "structured-valid", "ref-point", "small-order", "random", "random"}
 
 func fqToE2(v *fourq.Fq) decode.E2 {
 	a := vlib.FromLE(v[0][:])
 	b := vlib.FromLE(v[1][:])
 	return decode.E2{A: a.Mod(a, decode.FQP), B: b.Mod(b, decode.FQP)}
+}
+
+func setFq(dst *fourq.Fq, v decode.E2) {
+	copy(dst[0][:], vlib.LE(v.A, 16))
+	copy(dst[1][:], vlib.LE(v.B, 16))
 }
 
 // drawFQPoint draws an arbitrary curve point by solving for x from a drawn y.
@@ -345,6 +377,43 @@ func genFourQ(t *rapid.T, kind string) (b []byte, valid bool, orig *fourq.Point)
 			}
 		}
 		return make([]byte, 32), false, nil
+	case "structured-valid":
+		// curve points with a coordinate in a proper subfield or with a zero component, built by the reference:
+		// x real / purely imaginary / structured (lifted to y), or y real / purely imaginary / 0 / ±1 / ±i (x solved
+		// by the reference decoder), each with either sign
+		for i := 0; i < 400; i++ {
+			a := drawStructured(t, p, fmt.Sprintf("a%d", i))
+			c := drawStructured(t, p, fmt.Sprintf("c%d", i))
+			var v decode.E2
+			switch rapid.IntRange(0, 2).Draw(t, fmt.Sprintf("shape%d", i)) {
+			case 0:
+				v = decode.E2{A: a, B: new(big.Int)}
+			case 1:
+				v = decode.E2{A: new(big.Int), B: a}
+			default:
+				v = decode.E2{A: a, B: c}
+			}
+			if rapid.Bool().Draw(t, fmt.Sprintf("fromx%d", i)) {
+				P, ok := decode.FQLiftX(v)
+				if !ok {
+					continue
+				}
+				if rapid.Bool().Draw(t, "negy") {
+					P.Y = decode.FQF.E2Neg(P.Y)
+				}
+				return decode.FQEncode(P), false, nil
+			}
+			e := make([]byte, 32)
+			copy(e, vlib.LE(v.A, 16))
+			copy(e[16:], vlib.LE(v.B, 16))
+			if rapid.Bool().Draw(t, fmt.Sprintf("sign%d", i)) {
+				e[31] |= 0x80
+			}
+			if decode.FQDecode(e).OK {
+				return e, false, nil
+			}
+		}
+		return decode.FQEncode(decode.FQG), false, nil
 	case "ref-point":
 		P := drawFQPoint(t, "pt")
 		return decode.FQEncode(P), false, nil
@@ -378,6 +447,26 @@ func checkFourQ(t vlib.TB, b []byte, kind string, valid bool, orig *fourq.Point)
 	sample(sub, kind, accepted, b, "ref="+ref.Stage)
 	if valid && !accepted {
 		vlib.Report(t, "C09/completeness/fourq.Point.Unmarshal/rejects-library-encoding", fmt.Sprintf("input=%x", b))
+		return
+	}
+	if refConstructed(kind) && ref.OK {
+		// the library can hold this value (Point has exported coordinates) and serialise it: what Marshal gives
+		// must be accepted again (completeness on library output, independent of the reference's encoder)
+		var L, L2 fourq.Point
+		setFq(&L.X, ref.P.X)
+		setFq(&L.Y, ref.P.Y)
+		var enc [32]byte
+		L.Marshal(&enc)
+		if !eq(enc[:], b) {
+			vlib.Class(sub, "Marshal of the reference point differs from the reference encoding (counted only)")
+		}
+		cp := enc
+		if !L2.Unmarshal(&cp) {
+			vlib.Report(t, "C09/completeness/fourq.Point.Unmarshal/rejects-library-encoding", fmt.Sprintf("kind=%s point x=%v y=%v: Marshal gives %x, which Unmarshal rejects", kind, ref.P.X, ref.P.Y, enc))
+			return
+		}
+	}
+	if mustAccept(t, "fourq.Point.Unmarshal", sub, kind, ref.OK, accepted, b, ref.Stage) {
 		return
 	}
 	if !accepted {
@@ -435,8 +524,15 @@ func checkCurve4Q(t *rapid.T, b []byte, kind string, ref decode.FQResult) {
 	vlib.Sample(sub, kind+":"+acc, fmt.Sprintf("%s public=%x secret=%x → %s shared=%x", sub, b, sec, acc, shared))
 	if !ok {
 		if ref.OK && !decode.FQMul(decode.FQCo, ref.P).IsIdentity() {
-			vlib.Class(sub, "valid-public-of-large-order rejected (counted only; secret ≡ 0 mod N?)")
-			vlib.Sample(sub, "large-order-rejected", fmt.Sprintf("public=%x secret=%x k mod N=%v", b, sec, new(big.Int).Mod(vlib.FromLE(sec[:]), decode.FQN)))
+			kN := new(big.Int).Mod(vlib.FromLE(sec[:]), decode.FQN)
+			if kN.Sign() == 0 {
+				vlib.Class(sub, "valid public key, secret ≡ 0 mod N: rejected (k·392·P is the identity)")
+			} else if refConstructed(kind) || kind == "valid" {
+				// a canonical key of large order and a secret that is non-zero modulo N: k·392·P cannot be the identity
+				vlib.Report(t, "C09/completeness/curve4q.Shared/rejects-valid-public-key", fmt.Sprintf("kind=%s public=%x secret=%x: the key decodes (reference), 392·P ≠ O and k mod N ≠ 0, yet Shared fails", kind, b, sec))
+			} else {
+				vlib.Class(sub, "valid-public-of-large-order rejected (counted only)")
+			}
 		}
 		return
 	}
@@ -473,7 +569,7 @@ func TestC09FourQ(t *testing.T) {
 		kind := rapid.SampledFrom(fourqKinds).Draw(t, "kind")
 		b, valid, orig := genFourQ(t, kind)
 		_, ref := checkFourQ(t, b, kind, valid, orig)
-		if rapid.IntRange(0, 2).Draw(t, "dh") == 0 || kind == "small-order" {
+		if rapid.IntRange(0, 2).Draw(t, "dh") == 0 || kind == "small-order" || kind == "structured-valid" {
 			checkCurve4Q(t, b, kind, ref)
 		}
 	})
